@@ -911,7 +911,15 @@ namespace chaiscript {
         const auto start = m_position;
         if (Id_()) {
           auto text = Position::str(start, m_position);
-          const auto text_hash = utility::hash(text);
+
+          // The switch below dispatches on a 32 bit hash: only an identifier spelled exactly like one of
+          // the word literals may take one of its cases, any other (colliding) name is an ordinary Id
+          constexpr std::string_view word_literals[] = {"true", "false", "Infinity", "NaN", "__LINE__", "__FILE__", "__FUNC__", "__CLASS__", "_"};
+          static_assert(utility::hash("") != utility::hash("true") && utility::hash("") != utility::hash("false") && utility::hash("") != utility::hash("Infinity")
+                        && utility::hash("") != utility::hash("NaN") && utility::hash("") != utility::hash("__LINE__") && utility::hash("") != utility::hash("__FILE__")
+                        && utility::hash("") != utility::hash("__FUNC__") && utility::hash("") != utility::hash("__CLASS__") && utility::hash("") != utility::hash("_"));
+          const bool is_word_literal = std::find(std::begin(word_literals), std::end(word_literals), text) != std::end(word_literals);
+          const auto text_hash = is_word_literal ? utility::hash(text) : utility::hash("");
 
           if (validate) {
             validate_object_name(text);
